@@ -12,6 +12,23 @@ pub fn hir_corpus() -> Vec<Spec> {
     let mut v = vec![];
     // minimal
     v.push(Spec { paths: vec![item("/ping", vec![op("get", Some("ping"), vec![(200, None)])])], ..Default::default() });
+    // models mentioned ONLY as the value type of a retained map component (and, through it, an enum): all survive pruning
+    v.push(Spec {
+        components: vec![
+            ("Color".into(), s_enum(&["red", "green"])),
+            ("Label".into(), s_obj(vec![("text", inl(s_string())), ("color", rf("Color"))], &["text"])),
+            ("Labels".into(), Schema { kind: Kind::Object { props: vec![], required: vec![], addl: Some(Addl::Schema(rf("Label"))) }, ..Default::default() }),
+            ("Limit".into(), s_obj(vec![("max", inl(s_int()))], &[])),
+            ("Limits".into(), Schema { kind: Kind::Object { props: vec![], required: vec![], addl: Some(Addl::Schema(rf("Limit"))) }, ..Default::default() }),
+            ("Pet".into(), s_obj(vec![("id", inl(s_int())), ("labels", rf("Labels"))], &["id"])),
+            ("Unused".into(), s_obj(vec![("x", inl(s_bool()))], &[])),
+        ],
+        paths: vec![
+            item("/pets", vec![op("get", Some("getPet"), vec![(200, Some(rf("Pet")))])]),
+            item("/limits", vec![op("get", Some("getLimits"), vec![(200, Some(rf("Limits")))])]),
+        ],
+        ..Default::default()
+    });
     // object + enum + alias + map + nullable alias short-circuit
     v.push(Spec {
         components: vec![
